@@ -60,6 +60,9 @@ impl TraceWriter {
     pub fn write(&mut self, ev: &J) {
         serde_json::to_writer(&mut self.out, ev).unwrap();
         self.out.write_all(b"\n").unwrap();
+        if std::env::var_os("VERIF_DEBUG").is_some() {
+            self.out.flush().unwrap();
+        }
         self.lines += 1;
     }
 
